@@ -24,6 +24,7 @@ from __future__ import annotations
 
 import itertools
 import os
+import re
 from typing import Any
 from typing import Iterator
 
@@ -45,6 +46,7 @@ from liquid2.exceptions import RequiredBlockError
 from liquid2.exceptions import TemplateInheritanceError
 from liquid2.exceptions import TemplateNotFoundError
 
+OUTPUT_LIMIT = 200_000
 MODES = ("dict/sync", "dict/async", "caching/sync", "caching/async")
 
 # ----------------------------------------------------------------------------- building templates
@@ -378,7 +380,7 @@ def rand_template(draw: Any, tidx: int, depth: int, names: str, mark: str, tname
                 else:
                     body.append(kb)
         body.append(["t", f"[/{name}]"])
-        req = draw(st.integers(0, 11)) == 0
+        req = draw(st.integers(0, 29)) == 0
         endname = name if draw(st.booleans()) else None
         return ["b", name, req, body, endname]
 
@@ -418,8 +420,10 @@ def random_case(draw: Any, no_include_nest: bool) -> dict[str, Any]:
             inner_depth = draw(st.integers(2, 3))
             inner_names = names[: draw(st.integers(1, len(names)))] if shared else INNER_DISJOINT[: draw(st.integers(1, 3))]
             inner = {f"n{i}": draw(rand_template(i, inner_depth, inner_names, "N", "n")) for i in range(inner_depth)}
-            # prefer a host that is likely to be rendered: a definition of the leaf-most template that has one
-            tn, bi = hosts[0] if draw(st.integers(0, 2)) else draw(st.sampled_from(hosts))
+            # prefer a host whose body is rendered on the page of the outer chain
+            _k, _w, outer_info = resolve(templates, "t0", data)
+            live = [(t, i) for (t, i) in hosts if (t, scan(templates[t])[1][i][1]) in outer_info.rendered_defs]
+            tn, bi = draw(st.sampled_from(live)) if live and draw(st.integers(0, 4)) else draw(st.sampled_from(hosts))
             if tag == "inc" and no_include_nest:
                 case["skipped"] = ["nested-chain"]
             else:
@@ -474,6 +478,12 @@ def _partial_shape(templates: dict[str, Any]) -> tuple[str, str] | None:
     return tag, ("shared" if inner_names & outer_names else "disjoint")
 
 
+def _required_name(err: Exception) -> str | None:
+    """Block name quoted in a RequiredBlockError message (None if it cannot be read)."""
+    m = re.search(r"block '([^']*)' must be overridden", str(err))
+    return m.group(1) if m else None
+
+
 class C08(Prop):
     id = "C08"
     title = "Template inheritance resolves every block to its most-derived override"
@@ -518,7 +528,7 @@ class C08(Prop):
         self._evals = 0
 
     def n_random(self, tier: str) -> int:
-        return 8000 if tier == "quick" else 200000
+        return 6000 if tier == "quick" else 200000
 
     def budget_s(self, tier: str) -> float:
         return 240 if tier == "quick" else 3000
@@ -578,7 +588,8 @@ class C08(Prop):
 
         got: dict[str, tuple[str, Any]] = {}
         for lk, loader_cls in (("dict", DictLoader), ("caching", CachingDictLoader)):
-            env = make_env(loader=loader_cls(dict(srcs)))
+            # the output limit only bounds the cost of runaway recursion; pages here are < 10^4 characters
+            env = make_env(loader=loader_cls(dict(srcs)), limits={"output_stream_limit": OUTPUT_LIMIT})
             for mode in ("sync", "async"):
                 got[f"{lk}/{mode}"] = self._render(env, entry, data, mode)
         res.evaluations = len(got)
@@ -633,7 +644,9 @@ class C08(Prop):
                         mismatch_detail = f"got {g_val!r}"
                     continue
                 # an error where a page is expected
-                if info.required_unreached and isinstance(g_val, RequiredBlockError):
+                if info.required_unreached and isinstance(g_val, RequiredBlockError) and (
+                    _required_name(g_val) in info.required_unreached_names | {None}
+                ):
                     res.labels.append("required-unreached:eager")
                     continue
                 if info.dup_standalone and isinstance(g_val, TemplateInheritanceError):
